@@ -614,7 +614,7 @@ void phpy_set_index_permutation_symmetry_compact_fc(
     double *fc, const int p2s[], const int s2pp[], const int nsym_list[],
     const int perms[], const int n_satom, const int n_patom,
     const int is_transpose) {
-    int i, j, k, l, m, n, i_p, j_p, i_trans;
+    int i, j, k, l, m, n, i_p, j_p, i_trans, is_self;
     double fc_elem;
     char *done;
 
@@ -628,24 +628,6 @@ void phpy_set_index_permutation_symmetry_compact_fc(
         j_p = s2pp[j];
         for (i_p = 0; i_p < n_patom; i_p++) {
             i = p2s[i_p];
-            if (i == j) { /* diagnoal part */
-                for (k = 0; k < 3; k++) {
-                    for (l = 0; l < 3; l++) {
-                        if (l > k) {
-                            m = i_p * n_satom * 9 + i * 9 + k * 3 + l;
-                            n = i_p * n_satom * 9 + i * 9 + l * 3 + k;
-                            if (is_transpose) {
-                                fc_elem = fc[m];
-                                fc[m] = fc[n];
-                                fc[n] = fc_elem;
-                            } else {
-                                fc[m] = (fc[m] + fc[n]) / 2;
-                                fc[n] = fc[m];
-                            }
-                        }
-                    }
-                }
-            }
             if (!done[i_p * n_satom + j]) {
                 /* (j, i) -- nsym_list[j] --> (j', i') */
                 /* nsym_list[j] translates j to j' where j' is in */
@@ -655,8 +637,15 @@ void phpy_set_index_permutation_symmetry_compact_fc(
                 i_trans = perms[nsym_list[j] * n_satom + i];
                 done[i_p * n_satom + j] = 1;
                 done[j_p * n_satom + i_trans] = 1;
+                /* The block (i_p, j) is its own partner for i == j and */
+                /* for j = i + t where 2t is a supercell lattice vector. */
+                /* Then (k, l) and (l, k) are exchanged only once. */
+                is_self = (j_p == i_p && i_trans == j);
                 for (k = 0; k < 3; k++) {
                     for (l = 0; l < 3; l++) {
+                        if (is_self && l <= k) {
+                            continue;
+                        }
                         m = i_p * n_satom * 9 + j * 9 + k * 3 + l;
                         n = j_p * n_satom * 9 + i_trans * 9 + l * 3 + k;
                         if (is_transpose) {
